@@ -189,7 +189,7 @@ def pipe_heads(e):
 
 
 # -------------------------------------------------------------- shrinking moves
-SOURCES = {"hot", "of", "ofsome", "ofnone", "ofok", "oferr", "offn", "start", "iter", "repeat",
+SOURCES = {"hot", "of", "ofsome", "ofnone", "ofok", "oferr", "offn", "start", "iter", "iterl", "repeat",
            "empty", "never", "throw", "create"}
 
 
@@ -242,7 +242,7 @@ def shrink_candidates(case):
             cands.append(c)
     # cold sources / scripts: drop elements
     for path, node in pipe_positions(pipe):
-        if isinstance(node, list) and node and node[0] in ("iter", "create") and len(node) > 1:
+        if isinstance(node, list) and node and node[0] in ("iter", "iterl", "create") and len(node) > 1:
             for j in range(len(node) - 1, 0, -1):
                 c = case.copy()
                 c.set_field("pipe", [replace_sub(pipe, list(path), node[:j] + node[j + 1:])])
